@@ -37,8 +37,8 @@ class SccAttributeCode(SccCode):
   """SCC Foreground and Background Attribute Codes definition"""
   BWO = (0x1020, 0x1820, ColorType((0xFF, 0xFF, 0xFF, 0xFF)))  # Background White, Opaque
   BWS = (0x1021, 0x1821, ColorType((0xFF, 0xFF, 0xFF, 0x88)))  # Background White, Semi-transparent
-  BGO = (0x1022, 0x1822, ColorType((0x00, 0xFF, 0x00, 0xFF)))  # Background Green, Opaque
-  BGS = (0x1023, 0x1823, ColorType((0x00, 0xFF, 0x00, 0x88)))  # Background Green, Semi-transparent
+  BGO = (0x1022, 0x1822, ColorType((0x00, 0x80, 0x00, 0xFF)))  # Background Green, Opaque (green as decoded for PACs and mid-row codes)
+  BGS = (0x1023, 0x1823, ColorType((0x00, 0x80, 0x00, 0x88)))  # Background Green, Semi-transparent
   BBO = (0x1024, 0x1824, ColorType((0x00, 0x00, 0xFF, 0xFF)))  # Background Blue, Opaque
   BBS = (0x1025, 0x1825, ColorType((0x00, 0x00, 0xFF, 0x88)))  # Background Blue, Semi-transparent
   BCO = (0x1026, 0x1826, ColorType((0x00, 0xFF, 0xFF, 0xFF)))  # Background Cyan, Opaque
